@@ -526,6 +526,36 @@ def _lambda1_tasks(tier):
     return out
 
 
+def _stepcap_tasks(tier):
+    """round 5: the documented check schedule is "every min(100, round(sample_period * window_size)) samples".  Every other
+    family has sample_period * window_size <= 3, where the cap of 100 never binds.  Windows just above 100 with
+    sample_period near 1: the product is 101 .. 108 (cap binds: step 100) or 99 (control, below the cap); scripted
+    history — two windows of a periodic stream, then a shifted mix for 230 samples, so that two or three scheduled scores
+    and a Page-Hinkley alarm (threshold round(0.01 w) = 1) fall inside it; no deviation in quick, single deviations around the
+    first scheduled score in thorough."""
+    out = []
+    grid = [(104, 1.0, "intersection", False), (120, 0.9, "kl", True), (110, 0.9, "intersection", True)]
+    if tier != "quick":
+        grid += [(101, 1.0, "kl", False), (128, 0.8, "intersection", False), (200, 1.0, "intersection", True)]
+    for j, (w, sp, metric, scaling) in enumerate(grid):
+        default = ([0, 1, 2, 3] * w)[: 2 * w] + [4, 5, 3, 4, 5, 0] * 39
+        L = len(default)
+        cfg = {
+            "id": 7000 + j, "dim": 2, "alphabet": [0, 3, 4, 5], "len": L, "fam": "stepcap",
+            "params": {"window_size": w, "ev_threshold": 0.99, "delta": 0.0, "divergence_metric": metric,
+                       "sample_period": sp, "online_scaling": scaling},
+        }
+        zone = set() if tier == "quick" else set(range(2 * w + 96, 2 * w + 104))
+        out.append({
+            "system": "PCACD", "cfg": cfg, "mode": "dev", "default": default,
+            "menu": [[0, 3, 4, 5] if i in zone else [] for i in range(L)], "menu_per_pos": True,
+            "k": 0 if tier == "quick" else 1, "validate_every": 2,
+            "label": "PCACD|%d|2D w%d sp%s %s %s|stepcap" % (cfg["id"], w, sp, metric[:5], "scal" if scaling else "raw"),
+            "cost": 40 * L * 100,
+        })
+    return out
+
+
 def _sym_tasks(tier):
     """Mirror-symmetric menu (bin-edge ties, sign decided by rounding)."""
     out = []
@@ -967,6 +997,7 @@ def tasks(tier, seed):
             if W(c) == 3 and _frac8(c):
                 out += _dfs_tasks(c, c["alphabet"], split=2)
     out += _lambda1_tasks(tier)
+    out += _stepcap_tasks(tier)
     out += _sym_tasks(tier)
     out += _family_tasks(tier, allc)
     out += _long_family_tasks(tier)
@@ -975,6 +1006,7 @@ def tasks(tier, seed):
 
 
 REQUIRED = [
+    "fam_stepcap_checks",
     "drift_transitions",
     "second_epoch_drifts",
     "multi_component_histories",
@@ -1084,6 +1116,10 @@ def describe(tier):
                 "" if q else "lat3 scaled (ev 0.6), ",
                 "" if q else " and with one retained component (ev 0.6)",
             ),
+            "family_stepcap": "round 5: windows 104 / 120 / 110 (thorough also 101 / 128 / 200) with sample_period 1.0 / 0.9 / 0.8 — "
+                              "sample_period * window_size just above (cap of 100 binds) and just below 100 — scripted histories of "
+                              "2w + 234 samples (two or three scheduled scores each), no deviation in quick, every single replacement "
+                              "around the first scheduled score in thorough",
             "family_long": "window 60 scripted history (228 samples, no deviation): %s"
             % ("unit 1e-6, unit 1e6, level -65536, int64: 2 of the 4 metric x scaling combinations each" if q
                else "units 1e-12, 1e-6, 1e6, 1e12, mixed units A, levels -65536 and per-column, int64: "
